@@ -44,6 +44,14 @@ T = {
  "C05c": ("C05", "a UDP tproxy listener (needs CAP_NET_ADMIN: cannot run in the sandbox) and one source sending more than 100 datagrams to one session while its upstream is dialled: the accept loop waits in a blocking queue send", "C05 (proof obligation only: the regenerated accept-loop table fails accept_loops_have_no_peer_wait — no-failing-input-found, the listener cannot be started here; the same defect existed in the pinned reverse UDP listener and was shown end to end and repaired: 0d45019)"),
  "C07c": ("C07", "auth.required with a users list, and a presented password that is a proper prefix of the configured one (the empty password included; every SOCKS4 request with a valid user id)", "C07 (oracle: routed without valid credentials; correspondence with the credential model)"),
  "C10c": ("C10", "a SOCKS5 UDP association at a direct connector, destinations given by NAME, and the same name addressed with two different ports: later datagrams go to the first port", "C10 (oracle: delivered-to-wrong-destination — two origins and by-name destinations added for this seed)"),
+ "C04c": ("C04", "splice path (plain TCP both sides, useSplice on): one endpoint half-closes while the other still has data to send that is not yet queued in the proxy (a reply produced after seeing EOF): shutdown(Both) on the peer cuts the opposite direction", "C04 (oracle: bytes lost after the peer's half-close in the loopback matrix; correspondence)"),
+ "C06c": ("C06", "a SOCKS listener and a request that fails before it is queued: wrong or missing credentials, BIND or an unknown command, UDP ASSOCIATE with allowUdp off: no callback is installed yet, the client gets a bare EOF", "C06 (oracle: no complete reply; correspondence with the reply model)"),
+ "C14c": ("C14", "GET /api/status arriving while the collector's tick waits for the history list (e.g. behind a slow GET /api/history): the handler holds `alive` while it awaits `terminated`, the collector holds `terminated` and awaits `alive`", "C14 (proof obligation: regenerated lock-site table fails registry_locks_nest_in_one_order — added with the lock ranks terminated < alive; oracle: scenario history-read-slow-during-gc-then-status — added)"),
+ "C16c": ("C16", "GET /api/live served after a connection was dropped and before the collector's next tick: the handler prunes the dead entry, the collector's `remove(..).unwrap()` panics and the collector is gone", "C16 (oracle: records missing from history / log once the API is polled during the run — poller added)"),
+ "C02c": ("C02", "a UDP request whose first matching rule targets a connector without UDP support (a load balancer) and a later rule that matches too and targets a UDP-capable connector: the request is carried by the later rule instead of being refused", "C02 (oracle: decided by a later rule / upstream contacted for a request that must be refused; correspondence with the routing model)"),
+ "C15c": ("C15", "a posted list with a filter-less rule that is not last and an invalid rule behind it: the tail is dropped before validation, the POST is accepted and the shortened list goes live", "C15 (oracle: invalid list accepted / decided by the wrong list; correspondence)"),
+ "C17c": ("C17", "two or more round-robin balancers (or nested ones) in one process whose requests interleave: they share one cursor", "C17 (oracle: rr-unfair with two balancers side by side and with nested balancers — added for this seed; correspondence of the sequences)"),
+ "C19c": ("C19", "QUIC connector, a CONNECT to a silent origin behind a live upstream (times out after 10 s) while another tunnel is open on the same shared connection: clearing the cache closes the connection under it", "C19 (oracle: other-tunnel-disturbed in the silent-origin scenario — added for this seed, with the shared-connection model extended by the open tunnels)"),
 }
 root = "/verif/seeded"
 for sid, (prop, needs, caught) in sorted(T.items()):
